@@ -45,3 +45,31 @@ def trace(r, pat=None):
 
 def ok_results(res):
     return [(r, c) for r, c in ok_paths(res)]
+
+
+def sum_token_deref(eng, st, callee, args):
+    """`*token_account` (InterfaceAccount<TokenAccount> -> TokenAccount -> spl Account): a pure read of the account as loaded at instruction entry.
+    The same account must yield the same object every time it is dereferenced (Anchor never reloads it implicitly), otherwise two reads of
+    `vault.amount` would be two unrelated symbols. Keyed by the name of the pointee; unnamed pointees fall back to the default opaque treatment."""
+    v = eng.deref_val(args[0]) if args else None
+    nm = getattr(v, 'name', None)
+    ty = getattr(eng, 'cur_ret_ty', None)
+    if not nm or not ty: return None
+    cache = eng.__dict__.setdefault('_deref_cache', {})
+    key = (nm, ty)
+    if key not in cache:
+        cache[key] = eng.ex.fresh(ty, 'tok(' + nm + ')')
+    st.events.append(('token_deref', nm))
+    return cache[key]
+
+
+TOKEN_DEREF = [(r'TokenAccount.* as (std::ops::|core::ops::)?Deref>::deref$', sum_token_deref)]
+
+
+def account_field_of(eng, info, struct_name):
+    """which field of the instruction's Accounts struct an AccountInfo / account object argument came from"""
+    v = eng.deref_val(info)
+    nm = getattr(v, 'name', '') or ''
+    m = re.search(r'a0\.1\*\.(\d+)', nm)
+    names = STRUCTS[struct_name]
+    return names[int(m.group(1))] if m and int(m.group(1)) < len(names) else nm or '?'
